@@ -12,6 +12,10 @@ class TemplateRecursion(Exception):
     pass
 
 
+# nodes one expansion may visit (MediaWiki's preprocessor stops at 1,000,000 nodes)
+DEFAULT_NODE_LIMIT = 5_000_000
+
+
 def flatten(node: Any, expander: Any, variables: Any, res: list[str]) -> bool:
     t = type(node)
     if isinstance(node, str):
@@ -19,6 +23,12 @@ def flatten(node: Any, expander: Any, variables: Any, res: list[str]) -> bool:
         return True
 
     if expander.recursion_count > expander.recursion_limit:
+        raise TemplateRecursion()
+
+    # the depth limit alone lets a self-including template that uses its argument twice
+    # double the work on each of the 100 levels: bound the work of one expansion as well
+    expander.node_count = getattr(expander, "node_count", 0) + 1
+    if expander.node_count > getattr(expander, "node_limit", DEFAULT_NODE_LIMIT):
         raise TemplateRecursion()
 
     expander.recursion_count += 1
@@ -31,7 +41,15 @@ def flatten(node: Any, expander: Any, variables: Any, res: list[str]) -> bool:
                     flatten(x, expander, variables, res)
             else:
                 node.flatten(expander, variables, res)
-        except TemplateRecursion:
+            # text is charged as well (one unit per 64 characters, on every level it passes
+            # through): the copying of doubled arguments is what takes the time
+            produced = 0
+            out: object = res  # the list also holds marks (subclasses of str)
+            for x in out[old_len:]:
+                if isinstance(x, str):
+                    produced += len(x)
+            expander.node_count = getattr(expander, "node_count", 0) + (produced >> 6)
+        except (TemplateRecursion, MemoryLimitError):
             if expander.recursion_count > 2:
                 raise
             del res[old_len:]
@@ -224,6 +242,8 @@ class Expander:
 
         self.recursion_limit = recursion_limit
         self.recursion_count = 0
+        self.node_limit = DEFAULT_NODE_LIMIT
+        self.node_count = 0
         self.aliasmap = parser.AliasMap(self.siteinfo)
 
         self.parsed = parser.parse(
